@@ -642,6 +642,9 @@ def cmdDuden2 (args : List String) : String :=
   open DDP.Duden in
   match args with
   -- lists
+  | ["textiter", t] =>
+    ";".intercalate ((iterWalk (parseInts t)).map fun v =>
+      s!"{v.index}:{v.buchstabe}:{v.verbleibend}:{v.behandelt}:{showInts v.rest}:{showInts v.bisher}")
   | ["leere", l] => showInts (leere (parseInts l))
   | ["einfuegenBereich", l, i, r] => showOpt (einfuegenBereich (parseInts l) i.toNat! (parseInts r))
   | ["voranstellenListe", l, o] => showInts (voranstellenListe (parseInts l) (parseInts o))
@@ -812,7 +815,7 @@ def cmdDuden (args : List String) : String :=
 def abiTy (t : String) : DDP.Spec.Ty :=
   match t with
   | "Z" => .zahl | "K" => .komma | "B" => .byte | "W" => .wahr | "C" => .buchstabe | "T" => .text | "V" => .variable | "N" => .nichts
-  | "LZ" => .liste .zahl | "LK" => .liste .komma | "LB" => .liste .byte | "LW" => .liste .wahr | "LC" => .liste .buchstabe | "LT" => .liste .text
+  | "LZ" => .liste .zahl | "LK" => .liste .komma | "LB" => .liste .byte | "LW" => .liste .wahr | "LC" => .liste .buchstabe | "LT" => .liste .text | "LV" => .liste .variable
   | t => if t.startsWith "S:" then .kombi (t.drop 2).toString else .nichts
 
 def cmdAbi (args : List String) : String :=
